@@ -14,12 +14,20 @@ def gen_case(r, big=False):
         nid[0] += 1
         ops.append([0, nid[0], dev, ino, nlink, ftype, ([size] if size is not None else []), path])
     if big:
-        # more than 2*1024 live groups: forces grow_hash; then complete some, leave others incomplete
-        n = 2300 + r.randrange(200)
+        # more than 2*1024 live groups: forces grow_hash (twice when n > 4100); every group gets its second link,
+        # in random order, so that an entry misplaced by the growth is looked up again; random dev/ino bases so
+        # that the entry whose insertion triggers the growth has either value of the new index bit
+        n = r.choice([2100, 2300, 4200]) + r.randrange(200)
+        base = r.choice([1, 1000, 1025, 2049, 5000, 2**20 + 7, r.randrange(1, 2**32)])
+        dev0 = r.randrange(0, 9)
+        nl = [2 + (r.randrange(3) == 0) for _ in range(n)]
+        devs = [dev0 + (k % 3 if r.random() < 0.3 else 0) for k in range(n)]
         for k in range(n):
-            push(1 + (k % 3), 1000 + k, 2 + (k % 2), AE_IFREG, k, b"g%d" % k)
-        for k in r.sample(range(n), 400):
-            push(1 + (k % 3), 1000 + k, 2 + (k % 2), AE_IFREG, k, b"h%d" % k)
+            push(devs[k], base + k, nl[k], AE_IFREG, k, b"g%d" % k)
+        order = list(range(n))
+        r.shuffle(order)
+        for k in order[: n - r.randrange(0, 50)]:
+            push(devs[k], base + k, nl[k], AE_IFREG, k, b"h%d" % k)
     else:
         nkeys = r.choice([1, 2, 3, 5, 8])
         keys = []
@@ -51,7 +59,7 @@ def gen_case(r, big=False):
     npush = sum(1 for o in ops if o[0] == 0)
     ops += [[1]] * (npush + 1 if not big else 1)     # drain everything (new-cpio defers at most npush)
     if big:
-        ops += [[1]] * 2600
+        ops += [[1]] * (npush // 2 + 300)
     ops += [[2], [2]]
     return vfmt([strat, ops])
 
@@ -160,7 +168,7 @@ def run(rep):
     r = vlib.rng(rep.seed, "C17")
     n = 400 if rep.tier == "quick" else 20000
     cases = [gen_case(r) for _ in range(n)]
-    cases += [gen_case(r, big=True) for _ in range(1 if rep.tier == "quick" else 6)]
+    cases += [gen_case(r, big=True) for _ in range(4 if rep.tier == "quick" else 24)]
     corpus = vlib.load_corpus("C17")
     st = vlib.correspond(rep, "links", runner, exe, corpus + cases, oracle=oracle)
     rep.coverage.update(
